@@ -404,7 +404,15 @@ impl Printer {
             S::Expr(e) => self.expr(e),
             S::Let(n, rhs) => {
                 let _ = write!(self.out, "{n} := ");
-                self.stm(rhs);
+                if matches!(&**rhs, S::Expr(E::Lambda(..))) {
+                    // `name := (params) -> T {..}` is a function *declaration* (the name is bound to the function inside
+                    // its own body); a plain binding of an anonymous function is written with parentheses
+                    self.out.push('(');
+                    self.stm(rhs);
+                    self.out.push(')');
+                } else {
+                    self.stm(rhs);
+                }
             }
             S::Destruct(names, rhs) => {
                 let _ = write!(self.out, "({}) := ", names.join(", "));
